@@ -205,12 +205,41 @@ def string_name_check(p):
     return msgs
 
 
+def ed_statistics_check(p):
+    """Implementation-level: leaves made with `.ed(entries, statistics...)` — also with zero entries, where a fill never
+    leaves such statistics — are equal exactly when their documents are, alone and as the member of a Label."""
+    import random
+
+    hg = gen.hg
+    rng = random.Random(p.get("wild_seed", 0) + 1)
+    v1, v2 = rng.sample([3.0, 5.0, -1.5, 0.0, 42.0], 2)
+    makers = [("Sum", lambda e, v: hg.Sum.ed(e, v)), ("Average", lambda e, v: hg.Average.ed(e, v)),
+              ("Deviate (mean)", lambda e, v: hg.Deviate.ed(e, v, 1.0)), ("Deviate (variance)", lambda e, v: hg.Deviate.ed(e, 1.0, abs(v))),
+              ("Minimize", lambda e, v: hg.Minimize.ed(e, v)), ("Maximize", lambda e, v: hg.Maximize.ed(e, v))]
+    name, mk = makers[rng.randrange(len(makers))]
+    msgs = []
+    for e in (0.0, rng.choice([1.0, 2.0, 0.5])):
+        for wrap in (lambda x: x, lambda x: hg.Label(m=x)):
+            try:
+                a, b, c = wrap(mk(e, v1)), wrap(mk(e, v2)), wrap(mk(e, v1))
+                same_ab = a.toJson() == b.toJson()
+                if (a == b) != same_ab or (b == a) != same_ab or (a != b) == same_ab:
+                    msgs.append("%s.ed(%r, %r) and %s.ed(%r, %r)%s: documents %s but a == b is %r, b == a is %r, a != b is %r"
+                                % (name, e, v1, name, e, v2, "" if a is not None and a.name != "Label" else " as members of a Label",
+                                   "equal" if same_ab else "differ", a == b, b == a, a != b))
+                if not (a == c) or (a != c):
+                    msgs.append("%s.ed(%r, %r) built twice compares unequal" % (name, e, v1))
+            except Exception as ex:  # noqa: BLE001
+                msgs.append("%s.ed(%r, ...): comparison raised %s: %s" % (name, e, type(ex).__name__, ex))
+    return msgs[:1]
+
+
 def oracle(case, py, replies):
     out = common.eval_expect(case, py, replies)
     from runner import dec
 
     p = dec(case["params"])
-    out += wild_reload_check(p) + string_name_check(p)
+    out += wild_reload_check(p) + string_name_check(p) + ed_statistics_check(p)
     return out
 
 
